@@ -1,1 +1,315 @@
-/- property theorems for C10 (filled in below) -/
+/-
+C10 — automaton operations transform the accepted language as documented.
+Property theorems about the model `GT.FSA` (lean/GT/Model/FSA.lean); helper lemmas live in
+`GT/Lemmas/FSA*.lean`.  Each theorem family is followed by an `example` on a concrete automaton.
+-/
+import GT.Lemmas.FSALang
+import GT.Lemmas.FSAMult
+import GT.Lemmas.FSARename
+import GT.Lemmas.FSARec
+import GT.Lemmas.FSARlp2
+
+set_option linter.unusedSectionVars false
+
+namespace GT.C10
+open GT GT.FSA
+variable {V L : Type} [DecidableEq V] [DecidableEq L]
+
+/-! ## the acceptance test, the walk, the prefix queries and the enumerators agree -/
+
+/-- `follow_word` is a monoid action: walking `u ++ w` is walking `u`, then `w` -/
+theorem follow_append (s : FSA V L) (v : V) (u w : List L) :
+    s.follow v (u ++ w) = (s.follow v u).bind (fun v' => s.follow v' w) :=
+  FSA.follow_append s v u w
+
+/-- `accepts(word, start_vertex)` is true exactly when `follow_word` succeeds from the given start
+vertex, or (for `start_vertex=None`) from one of the start vertices -/
+theorem accepts_iff_follow (s : FSA V L) (w : List L) (start : Option V) :
+    s.accepts w start = true ↔
+      ∃ v, v ∈ (match start with | some v => [v] | none => s.starts) ∧ ∃ q, s.follow v w = some q := by
+  unfold FSA.accepts
+  rw [List.any_eq_true]
+  constructor
+  · rintro ⟨v, hv, h⟩
+    exact ⟨v, hv, Option.isSome_iff_exists.1 h⟩
+  · rintro ⟨v, hv, q, h⟩
+    exact ⟨v, hv, by simp [h]⟩
+
+/-- `initial_accepted_subword(word)` is the longest prefix of `word` accepted from the first start
+vertex (and raises `IndexError` exactly when there is no start vertex) -/
+theorem initialAccepted_spec (s : FSA V L) (w : List L) :
+    (s.starts = [] ∧ s.initialAccepted w = .error .indexError) ∨
+    ∃ v0 rest p, s.starts = v0 :: rest ∧ s.initialAccepted w = .ok p ∧ p <+: w ∧
+      (s.follow v0 p).isSome ∧ ∀ p', p' <+: w → (s.follow v0 p').isSome → p'.length ≤ p.length := by
+  unfold FSA.initialAccepted
+  cases hs : s.starts with
+  | nil => exact Or.inl ⟨rfl, rfl⟩
+  | cons v0 rest =>
+    exact Or.inr ⟨v0, rest, _, rfl, rfl, acceptedPrefixFrom_prefix s v0 w,
+      acceptedPrefixFrom_accepted s v0 w, fun p' hp h => acceptedPrefixFrom_longest s v0 w p' hp h⟩
+
+/-- the longest-accepted-prefix query agrees with the acceptance test: the answer is the whole
+word exactly when the word is accepted from the first start vertex -/
+theorem initialAccepted_eq_self_iff (s : FSA V L) (v0 : V) (rest : List V) (hs : s.starts = v0 :: rest)
+    (w : List L) : s.initialAccepted w = .ok w ↔ s.accepts w (some v0) = true := by
+  unfold FSA.initialAccepted FSA.accepts
+  simp only [hs, Except.ok.injEq, List.any_cons, List.any_nil, Bool.or_false]
+  constructor
+  · intro h
+    have := acceptedPrefixFrom_accepted s v0 w
+    rwa [h] at this
+  · exact acceptedPrefixFrom_eq_self
+
+/-- `initial_rejected_subword(word)` as coded: the word itself when it is accepted, otherwise the
+shortest rejected prefix (= longest accepted prefix plus the next letter) -/
+theorem initialRejected_spec (s : FSA V L) (v0 : V) (rest : List V) (hs : s.starts = v0 :: rest)
+    (w : List L) :
+    ∃ r, s.initialRejected w = .ok r ∧
+      ((s.follow v0 w).isSome → r = w) ∧
+      (s.follow v0 w = none → r <+: w ∧ s.follow v0 r = none ∧
+        ∃ l, r = s.acceptedPrefixFrom v0 w ++ [l]) := by
+  refine ⟨s.rejectedPrefixFrom v0 w, by simp [FSA.initialRejected, hs], ?_, ?_⟩
+  · exact rejectedPrefixFrom_of_accepted
+  · intro h
+    obtain ⟨l, e, hp, hr⟩ := rejectedPrefixFrom_of_rejected h
+    exact ⟨hp, hr, l, e⟩
+
+/-- `enumerate_fixed_length_paths(n, start, with_states=True)` yields exactly the pairs
+`(w, q)` with `|w| = n` and `follow_word(w, start) = q` -/
+theorem mem_enumFixed {s : FSA V L} (hd : s.RowsNodup) {start : V} {n : Nat}
+    {xs : List (List L × V)} (h : s.enumFixed start n = .ok xs) (w : List L) (q : V) :
+    (w, q) ∈ xs ↔ w.length = n ∧ s.follow start w = some q :=
+  FSA.mem_enumFixed hd h w q
+
+/-- … and lists each accepted word exactly once -/
+theorem enumFixed_nodup {s : FSA V L} (hd : s.RowsNodup) {start : V} {n : Nat}
+    {xs : List (List L × V)} (h : s.enumFixed start n = .ok xs) : (xs.map Prod.fst).Nodup :=
+  words_nodup_enumFixed hd h
+
+/-- the enumerator does not raise when every target of the label view is a vertex -/
+theorem enumFixed_ok {s : FSA V L} (hd : s.RowsNodup) (hc : s.Closed) {start : V}
+    (hs : ∃ row, s.graph.get? start = some row) (n : Nat) : ∃ xs, s.enumFixed start n = .ok xs :=
+  FSA.enumFixed_ok hd hc hs n
+
+/-- `enumerate_words(n, start, with_states=True)` yields exactly the pairs `(w, q)` with
+`|w| ≤ n` and `follow_word(w, start) = q` -/
+theorem mem_enumWords {s : FSA V L} (hd : s.RowsNodup) {start : V} {n : Nat}
+    {xs : List (List L × V)} (h : s.enumUpTo start n = .ok xs) (w : List L) (q : V) :
+    (w, q) ∈ xs ↔ w.length ≤ n ∧ s.follow start w = some q :=
+  mem_enumUpTo hd h w q
+
+/-- … each accepted word exactly once -/
+theorem enumWords_nodup {s : FSA V L} (hd : s.RowsNodup) {start : V} {n : Nat}
+    {xs : List (List L × V)} (h : s.enumUpTo start n = .ok xs) : (xs.map Prod.fst).Nodup :=
+  words_nodup_enumUpTo hd h
+
+/-- the enumerators and the acceptance test agree: a word of length `≤ n` is enumerated iff it is
+accepted from `start` -/
+theorem enumWords_iff_accepts {s : FSA V L} (hd : s.RowsNodup) {start : V} {n : Nat}
+    {xs : List (List L × V)} (h : s.enumUpTo start n = .ok xs) (w : List L) (hw : w.length ≤ n) :
+    w ∈ xs.map Prod.fst ↔ s.accepts w (some start) = true := by
+  rw [accepts_iff_follow]
+  simp only [List.mem_map, Prod.exists, exists_and_right, exists_eq_right, List.mem_singleton,
+    exists_eq_left]
+  constructor
+  · rintro ⟨q, hq⟩; exact ⟨q, ((mem_enumUpTo hd h w q).1 hq).2⟩
+  · rintro ⟨q, hq⟩; exact ⟨q, (mem_enumUpTo hd h w q).2 ⟨hw, hq⟩⟩
+
+section Example
+/-- the word acceptor of the free group on one generator: `fsa.free_automaton("a")` -/
+def exFree : FSA String String := FSA.free (fun g => if g = "a" then "A" else "a") "" ["a"]
+
+example : exFree.RowsNodup ∧ exFree.accepts ["a", "a"] = true ∧ exFree.accepts ["a", "A"] = false ∧
+    (exFree.initialAccepted ["a", "A", "a"]).toOption = some ["a"] ∧
+    (exFree.initialRejected ["a", "A", "a"]).toOption = some ["a", "A"] ∧
+    (exFree.enumUpTo "" 2).toOption.map (·.map Prod.fst) =
+      some [[], ["a"], ["A"], ["a", "a"], ["A", "A"]] := by
+  refine ⟨?_, by decide, by decide, by decide, by decide, by decide⟩
+  intro v row h
+  have : row ∈ [[("a", "a"), ("A", "A")], [("a", "a")], [("A", "A")]] := by
+    have hm := Dict.mem_of_get? h
+    revert hm; unfold exFree; simp [FSA.free, FSA.fromGraphDict, FSA.hiddenVertices, Dict.set, Dict.keys]
+    intro hm; rcases hm with ⟨_, rfl⟩ | ⟨_, rfl⟩ | ⟨_, rfl⟩ <;> simp
+  simp only [List.mem_cons, List.not_mem_nil, or_false] at this
+  rcases this with rfl | rfl | rfl <;> decide
+end Example
+
+
+/-! ## the k-multiple (and even) automaton -/
+
+/-- walking in the k-multiple automaton block by block is walking in the original automaton -/
+theorem follow_blocks {s : FSA V L} {k : Nat} {A : FSA V (List L)}
+    (hA : ∀ v w nb, A.step v w = some nb ↔ KReach s k v ∧ w.length = k ∧ s.follow v w = some nb)
+    (blocks : List (List L)) (v q : V) (hv : KReach s k v) :
+    A.follow v blocks = some q ↔ (∀ b ∈ blocks, b.length = k) ∧ s.follow v blocks.flatten = some q := by
+  induction blocks generalizing v with
+  | nil => simp
+  | cons b rest ih =>
+    rw [FSA.follow_cons, List.flatten_cons, FSA.follow_append]
+    constructor
+    · intro h
+      cases hst : A.step v b with
+      | none => simp [hst] at h
+      | some p =>
+        simp only [hst, Option.bind_some] at h
+        obtain ⟨-, hb, hf⟩ := (hA v b p).1 hst
+        obtain ⟨h1, h2⟩ := (ih p (KReach.step hv hb hf)).1 h
+        refine ⟨?_, by simp [hf, h2]⟩
+        intro b' hb'
+        rcases List.mem_cons.1 hb' with rfl | hb'
+        · exact hb
+        · exact h1 b' hb'
+    · rintro ⟨h1, h2⟩
+      cases hf : s.follow v b with
+      | none => simp [hf] at h2
+      | some p =>
+        simp only [hf, Option.bind_some] at h2
+        have hb : b.length = k := h1 b (by simp)
+        have hst : A.step v b = some p := (hA v b p).2 ⟨hv, hb, hf⟩
+        simp only [hst, Option.bind_some]
+        exact (ih p (KReach.step hv hb hf)).2 ⟨fun b' hb' => h1 b' (by simp [hb']), h2⟩
+
+/-- **The k-multiple automaton accepts exactly the accepted words whose length is a multiple of
+`k`** (`k ≥ 1`; `even_automaton` is `k = 2`).  Partial correctness of the literal queue loop:
+whenever `automaton_multiple(k)` returns `A`, then for every start vertex a word `w` with
+`k ∣ |w|` is accepted by the original automaton (ending in `q`) iff it is the concatenation of a
+block word accepted by `A` (ending in `q`), and that block word is unique. -/
+theorem multiple_language {s : FSA V L} (hs : s.RowsNodup) (k fuel : Nat) (hk : 1 ≤ k)
+    {A : FSA V (List L)} (h : s.multiple k fuel = .ok A) (start : V) (hst : start ∈ s.starts)
+    (w : List L) (q : V) :
+    ((s.follow start w = some q ∧ k ∣ w.length) ↔
+      ∃ blocks, A.follow start blocks = some q ∧ blocks.flatten = w) ∧
+    (∀ b₁ b₂ q₁ q₂, A.follow start b₁ = some q₁ → A.follow start b₂ = some q₂ →
+      b₁.flatten = b₂.flatten → b₁ = b₂) := by
+  obtain ⟨-, -, -, hA⟩ := multiple_spec hs k fuel h
+  have hr : KReach s k start := KReach.start hst
+  constructor
+  · constructor
+    · rintro ⟨hf, n, hn⟩
+      obtain ⟨bs, h1, h2⟩ := exists_blocks k n w (by rw [hn, Nat.mul_comm])
+      exact ⟨bs, (follow_blocks hA bs start q hr).2 ⟨h1, by rw [h2]; exact hf⟩, h2⟩
+    · rintro ⟨bs, h1, rfl⟩
+      obtain ⟨h2, h3⟩ := (follow_blocks hA bs start q hr).1 h1
+      refine ⟨h3, ?_⟩
+      clear h1 h3
+      induction bs with
+      | nil => simp
+      | cons b r ih =>
+        rw [List.flatten_cons, List.length_append, h2 b (by simp)]
+        exact Nat.dvd_add (Nat.dvd_refl k) (ih (fun x hx => h2 x (by simp [hx])))
+  · intro b₁ b₂ q₁ q₂ f₁ f₂ he
+    exact blocks_unique k hk b₁ b₂ ((follow_blocks hA b₁ start q₁ hr).1 f₁).1
+      ((follow_blocks hA b₂ start q₂ hr).1 f₂).1 he
+
+/-- the result of `automaton_multiple` is well-formed (its three views are coherent), has the same
+start list, and its vertices are the vertices reachable by walks of length a multiple of `k` -/
+theorem multiple_wf {s : FSA V L} (hs : s.RowsNodup) (k fuel : Nat) {A : FSA V (List L)}
+    (h : s.multiple k fuel = .ok A) :
+    A.WF ∧ A.starts = s.starts ∧ ∀ v, v ∈ A.vertices ↔ KReach s k v := by
+  obtain ⟨h1, h2, h3, -⟩ := multiple_spec hs k fuel h
+  exact ⟨h1, h2, h3⟩
+
+/- NOT PROVED (S `multiple_terminates`): a fuel bound under which `multiple` never answers `fuel`.
+   The loop marks on pop and never checks the mark at pop time; the number of pops can grow like
+   (#k-paths)^depth, so there is no polynomial bound; termination itself holds (DESIGN §4 C10). -/
+
+/-! ## relabelling -/
+
+/-- **Relabelling maps the language letter by letter.**  For a dictionary `m` that is injective
+and defined on every label in use, `rename_generators(m)` returns an automaton `s'` such that a
+word and its letterwise image are followed to the same state, and every word accepted by `s'` is
+the image of an accepted word. -/
+theorem rename_language {s : FSA V L} (hs : s.WF) (m : Dict L L)
+    (hdom : ∀ v l w, s.step v l = some w → ∃ l', m.get? l = some l')
+    (hinj : ∀ l₁ l₂ x, m.get? l₁ = some x → m.get? l₂ = some x → l₁ = l₂) :
+    ∃ s', s.rename m = .ok s' ∧ s'.WF ∧ s'.starts = s.starts ∧
+      (∀ v w w', Renames m w w' → s'.follow v w' = s.follow v w) ∧
+      (∀ v w' q, s'.follow v w' = some q → ∃ w, Renames m w w' ∧ s.follow v w = some q) := by
+  obtain ⟨s', e, hw, hst, -, hstep⟩ := rename_spec hs m hdom
+    (fun v l₁ w₁ l₂ w₂ l' _ _ h₁ h₂ => hinj l₁ l₂ l' h₁ h₂)
+  exact ⟨s', e, hw, hst, fun v w w' hr => follow_rename_of m hstep hinj v w w' hr,
+    fun v w' q hf => follow_rename_preimage m hstep v w' q hf⟩
+
+/-! ## the recurrent version -/
+
+/-- **`recurrent()` is the largest sub-automaton without dead ends.**  On a well-formed automaton
+the call never raises; the vertex set `S'` of the result has no dead ends (every vertex of `S'` has
+an edge into `S'` and an edge from `S'`), contains every vertex set without dead ends, and the edges
+of the result are the edges of the original automaton between vertices of `S'`. -/
+theorem recurrent_greatest {s : FSA V L} (hs : s.WF) :
+    ∃ s', s.recurrent = .ok s' ∧ s'.WF ∧ s'.starts = s.starts ∧
+      s.abs.NoDeadEnds (fun v => v ∈ s'.vertices) ∧
+      (∀ S, s.abs.NoDeadEnds S → ∀ v, S v → v ∈ s'.vertices) ∧
+      (∀ v l w, s'.step v l = some w ↔ s.step v l = some w ∧ v ∈ s'.vertices ∧ w ∈ s'.vertices) := by
+  obtain ⟨s', e, hw, hst, ha⟩ := recurrent_spec hs
+  have hv : ∀ v, v ∈ s'.vertices ↔ s.abs.core v := by
+    intro v
+    have : s'.abs.verts v ↔ (s.abs.recurrent).verts v := by rw [ha]
+    simp only [SetFSA.recurrent, SetFSA.induced] at this
+    constructor
+    · intro h; exact (this.1 h).2
+    · intro h; exact this.2 ⟨(SetFSA.noDeadEnds_core s.abs v h).1, h⟩
+  refine ⟨s', e, hw, hst, ?_, ?_, ?_⟩
+  · intro v hv'
+    obtain ⟨h1, ⟨l, w, h2, h3⟩, ⟨l', u, h4, h5⟩⟩ := SetFSA.noDeadEnds_core s.abs v ((hv v).1 hv')
+    exact ⟨h1, ⟨l, w, h2, (hv w).2 h3⟩, ⟨l', u, h4, (hv u).2 h5⟩⟩
+  · intro S hS v hSv; exact (hv v).2 (SetFSA.le_core s.abs hS v hSv)
+  · intro v l w
+    have : s'.abs.edges v l w ↔ (s.abs.recurrent).edges v l w := by rw [ha]
+    simp only [SetFSA.recurrent, SetFSA.induced] at this
+    rw [hv v, hv w]; exact this
+
+/-! ## the shortest-path version -/
+
+/-- **`remove_long_paths(root, edge_ties)` keeps exactly the edges lying on shortest paths from the
+root.**  Whenever the call returns `(H, dist)` (`dist` is the loop's `distance` dictionary) for the
+root `r` — the given one or, for `root=None`, the first start vertex — then: `H` is a well-formed
+automaton on the same vertex set (with an empty start list, as coded); `dist[x] = n` iff `n` is the
+graph distance from `r` to `x`; every edge of `H` is an edge of the original automaton from a vertex
+at distance `d` to a vertex at distance `d + 1`; with `edge_ties=True` `H` has *every* such edge; with
+`edge_ties=False` every vertex reachable from `r`, other than `r`, has in `H` incoming edges from
+exactly one vertex (so `H` is a spanning tree of the shortest-path edges), and a kept tree edge
+keeps all its parallel labels. -/
+theorem removeLongPaths_shortest {s : FSA V L} (hs : s.WF) (root : Option V) (ties : Bool)
+    {H : FSA V L} {dist : Dict V Nat} (h : s.removeLongPaths root ties = .ok (H, dist)) :
+    H.WF ∧ H.starts = [] ∧ (∀ v, v ∈ H.vertices ↔ v ∈ s.vertices) ∧
+    ∃ r, (root = some r ∨ (root = none ∧ s.starts.head? = some r)) ∧
+      (∀ x n, dist.get? x = some n ↔ IsDist s r x n) ∧
+      (∀ v l w, H.step v l = some w →
+        s.step v l = some w ∧ ∃ d, IsDist s r v d ∧ IsDist s r w (d + 1)) ∧
+      (ties = true → ∀ v l w, H.step v l = some w ↔
+        s.step v l = some w ∧ ∃ d, IsDist s r v d ∧ IsDist s r w (d + 1)) ∧
+      (ties = false →
+        (∀ w n, IsDist s r w n → w ≠ r →
+          ∃ v, (∃ l, H.step v l = some w) ∧ ∀ v' l', H.step v' l' = some w → v' = v) ∧
+        (∀ v l w, H.step v l = some w → ∀ l', s.step v l' = some w → H.step v l' = some w)) :=
+  removeLongPaths_spec hs root ties h
+
+/- NOT PROVED: that `remove_long_paths` never raises when the root is a vertex (totality); the
+   theorem is about every call that returns.  Covered by the correspondence (the model raises
+   exactly when the implementation does on the generated automata). -/
+
+/-! ## non-in-place operations
+
+`recurrent(inplace=False)`, `rename_generators(inplace=False)`, `automaton_multiple`,
+`remove_long_paths` are pure functions of the model: the argument cannot change.  For the Python
+(deepcopy, shared lists) this is observed by the correspondence / oracle clauses, not proved. -/
+
+section Example2
+/-- `FSA({0: {'a': 1, 'b': 0}, 1: {'a': 0}, 2: {'a': 0}}, [0])` -/
+def exA : FSA Nat String := fromGraphDict [(0, [("a", 1), ("b", 0)]), (1, [("a", 0)]), (2, [("a", 0)])] [0]
+
+example : ((exA.multiple 2 100).toOption.map fun A => A.edgesG) =
+    some [(0, ["a", "a"], 0), (0, ["b", "a"], 1), (0, ["b", "b"], 0), (1, ["a", "a"], 1), (1, ["a", "b"], 0)] := by
+  rfl
+
+example : ((exA.recurrent).toOption.map fun A => A.vertices) = some [0, 1] := by rfl
+
+example : ((exA.rename [("a", "x"), ("b", "y")]).toOption.map fun A => A.follow 0 ["y", "x", "x"]) =
+    some (exA.follow 0 ["b", "a", "a"]) := by rfl
+
+example : ((exA.removeLongPaths none true).toOption.map fun r => (r.1.edgesG, r.2)) =
+    some ([(0, "a", 1)], [(0, 0), (1, 1)]) := by rfl
+end Example2
+
+end GT.C10
